@@ -76,7 +76,15 @@ impl<T: Qcow2IoOps> Qcow2Dev<T> {
     #[inline]
     pub(crate) async fn call_fsync(&self, offset: u64, len: usize, flags: u32) -> Qcow2Result<()> {
         log::trace!("fsync off {:x} len {} flags {}", offset, len, flags);
+        let whole = offset == 0 && len == usize::MAX;
+        // cleared before the barrier is issued: a meta data write which
+        // starts while it is in flight is not covered by it and sets the
+        // mark again
+        let was_unsynced = whole && self.meta_unsynced.swap(false, Ordering::Relaxed);
         let res = self.file.fsync(offset, len, flags).await;
+        if res.is_err() && was_unsynced {
+            self.meta_unsynced.store(true, Ordering::Relaxed);
+        }
         if res.is_err() {
             self.barrier_failed.store(true, Ordering::Relaxed);
         } else if offset == 0 && len == usize::MAX {
@@ -527,6 +535,7 @@ impl<T: Qcow2IoOps> Qcow2Dev<T> {
             std::slice::from_raw_parts(((t.as_ptr() as u64) + start as u64) as *const u8, size)
         };
         self.repeat_failed_barrier().await?;
+        self.meta_unsynced.store(true, Ordering::Relaxed);
         self.call_write(off, buf).await
     }
 
@@ -644,11 +653,17 @@ impl<T: Qcow2IoOps> Qcow2Dev<T> {
             }
             wrote_reftable = true;
         }
-        if wrote_reftable {
-            // A refcount block is reachable through its reftable entry
-            // only: the entry has to be on disk before any mapping of a
-            // cluster counted in that block is written, and callers go on
-            // with flushing mappings.
+        // A refcount block is reachable through its reftable entry only: the
+        // entry has to be on disk before any mapping of a cluster counted in
+        // that block is written, and callers go on with flushing mappings.
+        //
+        // The same holds for refcount meta somebody else has written without
+        // a barrier since: a refcount block slice written back by a cache
+        // eviction, the last reftable block of a flush which is still in its
+        // own final barrier. Under the lock, so that the next caller doesn't
+        // get past a barrier which is still in flight.
+        if wrote_reftable || self.meta_unsynced.load(Ordering::Relaxed) {
+            let _wb_lock = self.refcount_wb_lock.lock().await;
             self.call_fsync(0, usize::MAX, 0).await?;
         }
         Ok(())
